@@ -602,7 +602,37 @@ func (m *Machine) pureExternal(c *Config, call ssa.CallInstruction, full string,
 		}
 		m.reflectWrites = append(m.reflectWrites, reflectWrite{fn: c.top.fn, pos: call.Pos(), what: full})
 		if !fresh {
-			st.ghost["@rset"] = BVAdd(m.ghostOr(st, "@rset", BVLitI(0, 64)), BVLitI(1, 64))
+			st.ghost["@rset"] = BVAdd(m.ghost(st, "@rset").(Term), BVLitI(1, 64))
+			kind := int64(7)
+			switch full {
+			case "(reflect.Value).SetInt":
+				kind = 1
+			case "(reflect.Value).SetUint":
+				kind = 2
+			case "(reflect.Value).SetFloat":
+				kind = 3
+			case "(reflect.Value).SetBool":
+				kind = 4
+			case "(reflect.Value).SetString":
+				kind = 5
+			case "(reflect.Value).Set":
+				kind = 6
+			}
+			st.ghost["@lastsetk"] = BVLitI(kind, 64)
+			if len(args) == 2 {
+				if a, ok := args[1].(Term); ok {
+					switch {
+					case kind <= 2 && a.Sort == SBV64:
+						st.ghost["@lastseti"] = a
+					case kind == 3 && a.Sort == SF64:
+						st.ghost["@lastsetf"] = a
+					case kind == 4 && a.Sort == SBool:
+						st.ghost["@lastsetb"] = a
+					case kind == 5 && a.Sort == SStr:
+						st.ghost["@lastsets"] = a
+					}
+				}
+			}
 		}
 		m.bindCallResult(c, call, nil)
 		return c, nil
